@@ -30,7 +30,10 @@ def _field_of_recv(fn, c):
 
 
 def C11_1(ctx, facts):
+    import panics
+    import patable
     n = 0
+    in_pa = 0
     for g in facts.fns.values():
         if not g.nkey.startswith(("happy_eyeballs", "<happy_eyeballs")):
             continue
@@ -40,9 +43,14 @@ def C11_1(ctx, facts):
                 continue
             n += 1
             m = norm(c.name).split("::")[-1]
+            if any(nm_ == "happy_eyeballs::EyeballSet::process_all" for nm_ in panics.owner_chain(g)):
+                in_pa += 1
+                continue   # process_all and its private helpers: the order of starts is decided by the trace table below
             ctx.check(m in ("push_back", "extend", "pop_front"), "EyeballSet.queue|%s|%s" % (g.nkey.split("::")[-1] if "{closure" not in g.nkey else g.nkey.split("::")[-2], m),
                       "queue accessed FIFO (%s)" % m, "queue mutated through %s (breaks start order)" % norm(c.name), c.where())
-    ctx.floor("EyeballSet.queue|mutators", n, 4, "mutating accesses to EyeballSet.queue")
+    ctx.floor("EyeballSet.queue|mutators", n, 3, "mutating accesses to EyeballSet.queue")
+    # candidates leave the queue in process_all only, and there in FIFO order: trace table (starts in queue order)
+    patable.table(ctx, facts)
     m2 = 0
     for g in facts.fns.values():
         if not g.nkey.startswith(("client::conn::dns::SocketAddrs", "<client::conn::dns::SocketAddrs")) or "sort_preferred" in g.nkey:
@@ -60,61 +68,27 @@ def C11_1(ctx, facts):
     ctx.floor("SocketAddrs.0|mutators", m2, 2, "mutating accesses to SocketAddrs.0 outside sort_preferred")
     pop = facts.unit(facts.fn("client::conn::dns::SocketAddrs::pop"))
     ctx.check(any(c.matches(r"VecDeque.*::pop_front$") for c in pop.calls()), "SocketAddrs::pop|front", "SocketAddrs::pop takes the front element", "SocketAddrs::pop does not pop the front", pop.where())
-    f = facts.unit(facts.fn("client::conn::transport::tcp::TcpConnecting::connect::{closure#0}"))
-    ctx.touched(f)
-    pops = f.calls("client::conn::dns::SocketAddrs::pop")
-    pushes = f.calls("happy_eyeballs::EyeballSet::push")
-    ctx.floor("TcpConnecting::connect|pop", len(pops), 1, "addresses.pop()")
-    ctx.floor("TcpConnecting::connect|push", len(pushes), 1, "attempts.push(..)")
-    for c in pushes:
-        rr = f.roots(c.args[1], through_calls=True)
-        ctx.check(any(r.kind == "call" and r.site.is_("client::conn::dns::SocketAddrs::pop") for r in rr), "TcpConnecting::connect|push-in-pop-order",
-                  "each attempt pushed is built from the address just popped (one push per pop, same order)", "pushed attempt roots %s" % sorted(map(repr, sig(rr)))[:6], c.where())
-        ok, w = f.must_pass(0, [c.bb], {p.bb for p in pops})
-        ctx.check(ok, "TcpConnecting::connect|pop-before-push", "a pop precedes every push", "push reachable without a pop", c.where(), f.path_desc(w))
+    # the candidate loop of TcpConnecting::connect as a decision table (candloop.py): one attempt per address, in list order,
+    # before the set is awaited - whatever the loop looks like
+    import candloop
+    candloop.table(ctx, facts)
     es = facts.unit(facts.fn("happy_eyeballs::EyeballSet::push"))
     ctx.check(any(c.matches(r"VecDeque.*::push_back$") for c in es.calls()), "EyeballSet::push|back", "EyeballSet::push appends at the back", "EyeballSet::push does not push_back", es.where())
 
 
 def C11_2_3_4(ctx, facts):
-    f = facts.unit(facts.fn(PA), expand=True)
-    ctx.touched(f)
-    tpush = [c for c in f.calls() if c.matches(r"FuturesUnordered.*::push$")]
-    pops = f.calls(VDQ + "::pop_front")
-    ctx.floor("process_all|task-starts", len(tpush), 2, "tasks.push sites")
-    ctx.floor("process_all|pops", len(pops), 2, "queue.pop_front sites")
-    for c in tpush:
-        rr = f.roots(c.args[1], through_calls=False)
-        ok = rr and all(r.kind == "call" and r.site.bb in {p.bb for p in pops} for r in rr)
-        ctx.check(ok, "process_all|start-only-popped", "only candidates just popped from the queue are started (moved: at most once each)", "tasks.push receives %s" % sorted(map(repr, rr)), c.where())
-    every_popped_started(ctx, facts)
+    # the initial batch (min(concurrency, n) candidates, in order), one stagger wait before every further start, every popped
+    # candidate started: rows of the process_all trace table (patable.py)
+    import patable
+    patable.table(ctx, facts)
+    f = patable.full_unit(facts, facts.fn(PA))
     home = {f.nkey} | {norm(k) for k in f.inlined}
-    other = [c for g in facts.fns.values() if g.nkey.startswith("happy_eyeballs") and g.nkey not in home for c in g.calls() if c.matches(r"FuturesUnordered.*::push$")]
-    ctx.check(not other, "tasks.push|only-in-process_all", "attempts are started only in process_all", "tasks.push also in %s" % [c.fn.nkey for c in other])
-    # initial batch
-    rng = [(b, s) for (b, i, s) in f.aggregates("Range") if (s["r"].get("adt") or "").endswith("ops::Range")]
-    incl = [c for c in f.calls() if c.matches(r"RangeInclusive.*::new$")]
-    ctx.check(len(rng) == 1 and not incl, "process_all|half-open-range", "the initial batch iterates a half-open range", "initial batch uses %d Range / %d RangeInclusive" % (len(rng), len(incl)))
-    for (b, s) in rng:
-        lo, hi = s["r"]["ops"]
-        rr = f.roots(hi)
-        ok = const_of(lo) is not None and str(const_of(lo)).startswith("0") and \
-            any("initial_concurrency" in r.desc for r in rr if r.kind in ("arg", "upvar")) and any(r.kind == "call" and r.site.matches(r"VecDeque.*::len$") for r in rr)
-        ctx.check(ok, "process_all|initial-batch-bound", "the bound is initial_concurrency.unwrap_or(queue.len())", "range roots %s" % sorted(map(repr, sig(rr))), f.where(b))
-    # pacing
-    jt = c10.aw_of(f, "happy_eyeballs::EyeballSet::join_next_with_timeout")
-    if not jt:
-        return ctx.missing("process_all|stagger-await", "no await of join_next_with_timeout")
-    aw = jt[0]
-    stagger_pop = [p for p in pops if f.dominates(p.bb, aw["future"].bb)]
-    stagger_pop = [p for p in stagger_pop if not any(f.dominates(p.bb, q.bb) and q.bb != p.bb for q in stagger_pop)] or stagger_pop
-    spush = [c for c in tpush if any(r.kind == "call" and r.site.bb in {p.bb for p in stagger_pop} for r in f.roots(c.args[1], through_calls=False))]
-    ctx.floor("process_all|stagger-push", len(spush), 1, "push of the staggered candidate")
-    for c in spush:
-        for p in stagger_pop:
-            ok, w = f.must_pass(p.bb, [c.bb], {aw["ready_edge"][1]} if aw["ready_edge"] else set())
-            ctx.check(ok, "process_all|stagger-wait-before-start", "a further candidate is started only after the stagger wait (join_next_with_timeout) completed: never earlier",
-                      "a candidate can be started without waiting for the stagger delay / a failure", c.where(), f.path_desc(w))
+    starts = [c for g in facts.fns.values() if g.nkey.startswith(("happy_eyeballs", "<happy_eyeballs")) for c in g.calls()
+              if (c.t.get("argtys") or [""])[0].startswith(("&futures_util::stream::FuturesUnordered<", "&mut futures_util::stream::FuturesUnordered<")) and
+              norm(c.name).split("::")[-1] in ("push", "extend")]
+    ctx.floor("tasks.push|sites", len(starts), 1, "places that start attempts")
+    other = [c for c in starts if c.fn.nkey not in home]
+    ctx.check(not other, "tasks.push|only-in-process_all", "attempts are started only in process_all", "attempts also started in %s" % [c.fn.nkey for c in other])
     j = facts.unit(facts.fn(JT), expand=True)
     ctx.touched(j)
     to = [c for c in j.calls() if c.is_("tokio::time::timeout", "tokio::time::timeout::timeout")]
@@ -133,34 +107,6 @@ def C11_2_3_4(ctx, facts):
     for (b, i, s) in tm:
         g, w = j.guarded(b, lambda lab: lab.kind == "variant" and lab.variants == {"Err"})
         ctx.check(g, "join_next_with_timeout|Timeout-on-elapsed", "Eyeball::Timeout only on the elapsed edge", "Eyeball::Timeout on another edge", j.where(b), j.path_desc(w))
-
-
-def every_popped_started(ctx, facts):
-    """Linear use of a popped candidate: from the Some edge of a queue.pop_front, every path that goes on (to another pop, to the drain
-    loop, or to a failure return) starts the candidate (tasks.push of that value); it may only be dropped on a success return."""
-    f = facts.unit(facts.fn(PA), expand=True)
-    tpush = [c for c in f.calls() if c.matches(r"FuturesUnordered.*::push$")]
-    pops = f.calls(VDQ + "::pop_front")
-    jn = c10.aw_of(f, "happy_eyeballs::EyeballSet::join_next")
-    ok_rets = set()
-    for (k, b, x) in assigns_to_return(f, f.live):
-        if k == "stmt" and x["r"].get("v") == "Ok":
-            ok_rets |= f.reach([b])
-    for p in pops:
-        some = [(a, b) for (a, b, lab) in f.edges() if lab is not None and lab.kind == "variant" and lab.variants == {"Some"} and
-                f.call_defining(lab.place["l"]) is not None and f.call_defining(lab.place["l"]).bb == p.bb]
-        mine = {c.bb for c in tpush if any(r.kind == "call" and r.site.bb == p.bb for r in f.roots(c.args[1], through_calls=False))}
-        for (a, b) in some:
-            targets = [q.bb for q in pops] + [x["future"].bb for x in jn] + [r for r in f.returns if r not in ok_rets]
-            # returns reached only through an Ok(..) assignment are success returns
-            bad = None
-            for t in targets:
-                pth = f.path(b, [t], avoid_blocks=mine | {bb for bb in ok_rets if bb not in f.returns})
-                if pth is not None:
-                    bad = pth
-                    break
-            ctx.check(bad is None, "process_all|popped-candidate-started", "a candidate popped from the queue is always started before the procedure moves on (it is dropped only when returning success)",
-                      "a popped candidate can be discarded without being attempted (the loop continues / fails without starting it)", p.where(), f.path_desc(bad))
 
 
 def C11_6(ctx, facts):
